@@ -88,6 +88,10 @@ def run(tier, v):
     # extension beyond the listed properties (never a verdict on C13): the tunnel path through a
     # relay (spec/RelayTunnel.tla): its two findings on the unchanged tree are described in DESIGN.md 6.6
     vlib.run_extension("x03", tier, cov)
+    # extension X04: model-directed schedule replay (spec/RelayGen.tla: TLC's behaviours of Relay steered onto the real
+    # relay with the vhook points as gates); it judges this very property with the same trace module and the same
+    # observable oracle, so a rejected recording / failed oracle is a C13 violation; divergence and watchdog are noise
+    vlib.run_extension("x04", tier, cov, v=v, forward=lambda key: key.startswith(("reject-", "invariant-", "observable-")))
     return cov
 
 
